@@ -357,7 +357,16 @@ def run_c18(t, tier, res):
             if tro.ok:
                 load_omen(os.path.join(tro.rule_dir, "Omen"))         # the guesser looked at the ruleset in between
             res.faults["rule_name_trained_before_with_larger_model"] += 1 if tro.ok else 0
-        tr = trainer.train(pws, opts)
+        fault = None
+        if t.chance(1, 8):
+            # a disk that fails one write (or one close) of one rules file and is healthy afterwards (the OMEN files are
+            # the first ones the trainer writes): the training reports failure, or what it saved is complete
+            fault = (t.between(1, 9), t.choice([0, 1, 1, 2, 3, 5, 9, 30]), t.choice([1, 1, 1, 2, 5]))
+        tr = trainer.train(pws, opts, write_fault=fault)
+        if tr.disk is not None and tr.disk.fired:
+            res.faults["transient_write_error_in_rules_file"] += 1
+            res.stats["write_error_then_training_reported_%s" % ("success" if tr.ok else "failure")] += 1
+            res.sim_seconds += tr.slept
     if flavour.get("large"):
         res.stats["large_lists_trained" if tr.ok else "large_lists_not_trained"] += 1
     res.sample = {"passwords": pws[:15], "n": len(pws), "opts": opts}
